@@ -102,6 +102,10 @@ PHASES = {
         {"pkg": "e1", "test": "TestC01Independence", "phase": "C01/filter-independence"},
         {"pkg": "e1", "test": "TestC01Histories", "phase": "C01/subscription-histories"},
         {"pkg": "e2", "test": "TestC01Wire", "phase": "C01/wire"},
+        # matching sessions must get the message wherever the log stands: logs prefilled up to the offsets at which they are
+        # trimmed, restarts, stalled subscribers (same paths as C02's)
+        {"pkg": "e2", "test": "TestC02Delivery", "phase": "C02/acknowledged-publish-delivered"},
+        {"pkg": "e2", "test": "TestC02Stalled", "phase": "C02/stalled-subscriber"},
     ],
     "C07": [
         {"pkg": "e1", "test": "TestC07Retained", "phase": "C07/retained-histories"},
